@@ -1,4 +1,5 @@
 import Qwt.Proofs.BinWMNew
+import Qwt.Proofs.BinHWMInv
 
 /-!
 # C03 — the binary wavelet matrix `WT` (plain variant, `compressed = false`)
@@ -16,6 +17,18 @@ built by `BinWT.new`.
 Proof structure (`Qwt/Proofs/BinWM*.lean`): list-level wavelet matrix and its block invariant
 (`BinWM.blk`, `walk_step`, `track_get`, `selUp_spec`), simulation of the model loops
 (`rankWalk_ok`, `go_ok`, `selectDown_ok`, `selectUp_ok`), construction (`levels_loop`, `new_ok`).
+
+## 6. the Huffman-shaped variant `HWT` (`compressed = true`)
+
+Section `huffman` below: under the explicit hypothesis that the code table returned by
+`craftWmCodes` is valid (`C02.WMValid 2 codes occ`, with `occ` listing exactly the symbols of
+`S`; definition shared with C02, `Qwt/Proofs/CraftDefs.lean`) and `W ≤ 64`, `new` succeeds and
+`get` / `rank` / `select` agree with the list specification, with `none` for every symbol
+without a code (= not occurring in `S`).  Proof files `Qwt/Proofs/BinHWM*.lean`: list-level
+Huffman matrix (`HOK`, `blkH`, `walk_stepH`, `selUpH_spec`, `track_getH`/`track_endH`),
+`hok_of_valid` (WMValid ⇒ HOK via sortedness of every level under the bit-reversed prefix),
+simulation (`rankWalkH_ok`, `goH_ok`, …), decode tables (`decodeTables_ok`), construction
+(`levels_loopH`, `new_okH`).
 -/
 namespace Qwt.Props.C03
 open Qwt Qwt.BinWT Qwt.BinWM
@@ -239,6 +252,74 @@ theorem wt_empty_select (sym k : Nat) : BinWT.select c false t sym k = .ok none 
 
 end empty
 
+/-! ## 6. the Huffman-shaped variant -/
+
+section huffman
+open Qwt.Huff (PrefixCode)
+open Qwt.Props.C02 (WMValid)
+
+variable (c : Cfg) (hW : c.W ≤ 64) (hL : BinLevelLaw) (S : List Nat) (hne : S ≠ [])
+  (hb : ∀ x ∈ S, x < 2 ^ c.W) (hS : S.length < 2 ^ 43) (lens : List (Nat × Nat))
+  (codes : Array PrefixCode)
+  (hcraft : Huff.craftWmCodes 2 lens (Utils.asUsize (Spec.maxNat S)) = .ok codes)
+  (occ : List Nat) (hv : WMValid 2 codes occ) (hocc : ∀ s, s ∈ occ ↔ s ∈ S)
+include hW hL hne hb hS hcraft hv hocc
+
+/-- construction succeeds on every valid code table; the tree stores that table -/
+theorem hwt_new_ok :
+    ∃ t, BinWT.new c true S.toArray lens = .ok t ∧ HWMb c S codes t ∧ t.n = S.length ∧
+      t.codesEncode = some codes ∧ t.sigma = none := by
+  obtain ⟨t, h1, h2⟩ := new_okH c hW hL S hne hb hS lens codes hcraft occ hv hocc
+  exact ⟨t, h1, h2, h2.n_eq, h2.codes_eq, h2.sigma_eq⟩
+
+variable {t : WT} (ht : BinWT.new c true S.toArray lens = .ok t)
+include ht
+
+theorem hwt_inv : HWMb c S codes t := by
+  obtain ⟨t', h1, h2⟩ := new_okH c hW hL S hne hb hS lens codes hcraft occ hv hocc
+  rw [h1] at ht; cases ht; exact h2
+
+theorem hwt_get_ok (i : Nat) : BinWT.get c true t i = .ok S[i]? :=
+  invH_get (hwt_inv c hW hL S hne hb hS lens codes hcraft occ hv hocc ht) i
+
+theorem hwt_getUnchecked_ok (i : Nat) (hi : i < S.length) :
+    BinWT.getUnchecked c true t i = .ok S[i] :=
+  invH_getUnchecked (hwt_inv c hW hL S hne hb hS lens codes hcraft occ hv hocc ht) i hi
+
+/-- `rank`: `none` for every symbol that does not occur (it has no code) -/
+theorem hwt_rank_ok (sym i : Nat) :
+    BinWT.rank c true t sym i =
+      .ok (if sym ∈ S ∧ i ≤ S.length then some (Spec.rank sym i S) else none) :=
+  invH_rank (hwt_inv c hW hL S hne hb hS lens codes hcraft occ hv hocc ht) sym i
+
+theorem hwt_rankUnchecked_ok (sym i : Nat) (hs : sym ∈ S) (hi : i ≤ S.length) :
+    BinWT.rankUnchecked c true t sym i = .ok (Spec.rank sym i S) :=
+  invH_rankUnchecked (hwt_inv c hW hL S hne hb hS lens codes hcraft occ hv hocc ht) sym i hs hi
+
+theorem hwt_select_ok (sym k : Nat) :
+    BinWT.select c true t sym k = .ok (if sym ∈ S then Spec.select sym k S else none) :=
+  invH_select (hwt_inv c hW hL S hne hb hS lens codes hcraft occ hv hocc ht) sym k
+
+/-- a symbol that does not occur is never confused with another one (whatever its size) -/
+theorem hwt_no_confusion (sym k : Nat) (hs : sym ∉ S) :
+    BinWT.select c true t sym k = .ok none := by
+  rw [hwt_select_ok c hW hL S hne hb hS lens codes hcraft occ hv hocc ht, if_neg hs]
+
+end huffman
+
+/-- the empty sequence, Huffman-shaped variant -/
+theorem hwt_empty (c : Cfg) (lens : List (Nat × Nat)) {t : WT}
+    (ht : BinWT.new c true #[] lens = .ok t) (sym i : Nat) :
+    t = {} ∧ BinWT.get c true t i = .ok none ∧ BinWT.rank c true t sym i = .ok none ∧
+      BinWT.select c true t sym i = .ok none := by
+  cases ht
+  refine ⟨rfl, rfl, ?_, rfl⟩
+  unfold BinWT.rank reprOf
+  by_cases hi : i > 0
+  · simp [hi]; rfl
+  · have : ¬ i > ({} : WT).n := hi
+    simp only [this, if_false]; rfl
+
 /-! ## non-vacuity and concrete evaluation -/
 
 section examples
@@ -283,6 +364,96 @@ example : (List.range 10).all (fun sym => (List.range 8).all (fun k =>
     Out.ofOpt (do let t ← BinWT.new exC false exS.toArray []; BinWT.select exC false t sym k)
       == Out.ofOpt (.ok (if exS ≠ [] ∧ sym ≤ Spec.maxNat exS
             then Spec.select sym k exS else none)))) = true := by decide +kernel
+
+/-! ### Huffman-shaped variant -/
+
+open Qwt.Huff (PrefixCode) in
+open Qwt.Props.C02 (WMValid digits revLex) in
+/-- a decidable criterion for `WMValid 2` (the quantifiers over all naturals are bounded by
+    the table size, the level `L` is determined by the length of the ending code) -/
+theorem wmvalid_of_check (codes : Array PrefixCode) (occ : List Nat)
+    (h1 : ∀ s ∈ occ, s < codes.size ∧ codes[s]!.len ≠ 0)
+    (h2 : ∀ s, s < codes.size → s ∉ occ → codes[s]!.len = 0)
+    (h3 : ∀ x ∈ occ, ∀ y ∈ occ, x ≠ y → ¬ (digits 2 codes[x]! <+: digits 2 codes[y]!))
+    (h4 : ∀ x ∈ occ, ∀ y ∈ occ, codes[y]!.len < codes[x]!.len →
+      revLex 2 ((digits 2 codes[x]!).take codes[y]!.len) < revLex 2 (digits 2 codes[y]!))
+    (h5 : ∀ s, s < codes.size → codes[s]!.len ≤ 32 ∧ codes[s]!.content < 2 ^ codes[s]!.len) :
+    WMValid 2 codes occ := by
+  have hout : ∀ s, ¬ s < codes.size → codes[s]! = default := by
+    intro s hs
+    rw [getElem!_def, Array.getElem?_eq_none (by omega)]
+  refine ⟨h1, ?_, h3, ?_, ?_⟩
+  · intro s hs
+    by_cases hlt : s < codes.size
+    · exact h2 s hlt hs
+    · rw [hout s hlt]; rfl
+  · intro x hx y hy L hy1 hx1
+    rw [digits_length] at hy1 hx1
+    have := h4 x hx y hy (by omega)
+    rw [hy1] at this; exact this
+  · intro s
+    by_cases hlt : s < codes.size
+    · exact ⟨(h5 s hlt).1, by rw [bitsOf_two]; exact Nat.one_dvd _, (h5 s hlt).2⟩
+    · rw [hout s hlt]
+      exact ⟨by decide, by rw [bitsOf_two]; exact Nat.one_dvd _, by decide⟩
+
+/-- a 3-level Huffman-shaped example: symbols 1..4 with code lengths 1, 2, 3, 3 -/
+def exHS : List Nat := [1, 2, 1, 3, 1, 4, 2, 1]
+def exLens : List (Nat × Nat) := [(4, 3), (2, 2), (1, 1), (3, 3)]
+def exCodes : Array Huff.PrefixCode := #[⟨0, 0⟩, ⟨1, 1⟩, ⟨1, 2⟩, ⟨0, 3⟩, ⟨1, 3⟩]
+
+theorem ok_of_check {α : Type} [DecidableEq α] {x : M α} {v : α}
+    (h : (match x with | .ok a => decide (a = v) | .error _ => false) = true) : x = .ok v := by
+  cases x with
+  | ok a => simp only [decide_eq_true_eq] at h; rw [h]
+  | error e => cases h
+
+theorem exCraft : Huff.craftWmCodes 2 exLens (Utils.asUsize (Spec.maxNat exHS)) = .ok exCodes :=
+  ok_of_check (by decide +kernel)
+
+/-- the code table that `craftWmCodes` returns for it is valid -/
+theorem exCodes_valid : C02.WMValid 2 exCodes [1, 2, 3, 4] :=
+  wmvalid_of_check exCodes [1, 2, 3, 4] (by decide) (by decide) (by decide) (by decide) (by decide)
+
+/-- all hypotheses of the Huffman theorems (other than `BinLevelLaw`) are satisfiable -/
+example (hL : BinLevelLaw) : ∃ t, BinWT.new exC true exHS.toArray exLens = .ok t ∧
+    t.codesEncode = some exCodes ∧
+    BinWT.get exC true t 5 = .ok (some 4) ∧
+    BinWT.rank exC true t 2 7 = .ok (some 2) ∧
+    BinWT.select exC true t 1 3 = .ok (some 7) ∧
+    BinWT.select exC true t 0 0 = .ok none ∧
+    BinWT.select exC true t 5 0 = .ok none := by
+  have hcraft := exCraft
+  have hocc : ∀ s, s ∈ [1, 2, 3, 4] ↔ s ∈ exHS := by
+    intro s; simp only [exHS, List.mem_cons, List.not_mem_nil, or_false]; omega
+  obtain ⟨t, ht, -, -, hc, -⟩ := hwt_new_ok exC (by decide) hL exHS (by decide) (by decide)
+    (by decide) exLens exCodes hcraft _ exCodes_valid hocc
+  refine ⟨t, ht, hc, ?_, ?_, ?_, ?_, ?_⟩
+  · rw [hwt_get_ok exC (by decide) hL exHS (by decide) (by decide) (by decide) exLens exCodes
+      hcraft _ exCodes_valid hocc ht]; rfl
+  · rw [hwt_rank_ok exC (by decide) hL exHS (by decide) (by decide) (by decide) exLens exCodes
+      hcraft _ exCodes_valid hocc ht]; exact congrArg Except.ok (by decide)
+  · rw [hwt_select_ok exC (by decide) hL exHS (by decide) (by decide) (by decide) exLens exCodes
+      hcraft _ exCodes_valid hocc ht]; exact congrArg Except.ok (by decide)
+  · exact hwt_no_confusion exC (by decide) hL exHS (by decide) (by decide) (by decide) exLens
+      exCodes hcraft _ exCodes_valid hocc ht 0 0 (by decide)
+  · exact hwt_no_confusion exC (by decide) hL exHS (by decide) (by decide) (by decide) exLens
+      exCodes hcraft _ exCodes_valid hocc ht 5 0 (by decide)
+
+/-- the model itself, evaluated: the Huffman-shaped tree agrees with the specification -/
+example : (List.range 10).all (fun i =>
+    Out.ofOpt (do let t ← BinWT.new exC true exHS.toArray exLens; BinWT.get exC true t i)
+      == Out.ofOpt (.ok exHS[i]?)) = true := by decide +kernel
+
+example : (List.range 7).all (fun sym => (List.range 10).all (fun i =>
+    Out.ofOpt (do let t ← BinWT.new exC true exHS.toArray exLens; BinWT.rank exC true t sym i)
+      == Out.ofOpt (.ok (if sym ∈ exHS ∧ i ≤ exHS.length
+            then some (Spec.rank sym i exHS) else none)))) = true := by decide +kernel
+
+example : (List.range 7).all (fun sym => (List.range 6).all (fun k =>
+    Out.ofOpt (do let t ← BinWT.new exC true exHS.toArray exLens; BinWT.select exC true t sym k)
+      == Out.ofOpt (.ok (if sym ∈ exHS then Spec.select sym k exHS else none)))) = true := by
+  decide +kernel
 
 /-- the empty tree -/
 example : BinWT.new exC false #[] [] = .ok {} := rfl
